@@ -393,3 +393,54 @@ Proof.
       * unfold zlen in *. rewrite firstn_length_le by lia. lia.
       * intros _. unfold zlen in *. rewrite skipn_length. rewrite Hcnt in *. nia.
 Qed.
+
+(* ---------------------------------------------------------------- single items *)
+Lemma index_check_spec {A} (l : list A) i : index_check l i = norm_index (zlen l) i.
+Proof. unfold index_check, norm_index, in_range. reflexivity. Qed.
+
+Theorem list_items_spec {A} (l : list A) i v :
+  match norm_index (zlen l) i with
+  | None => list_getitem l i = IndexErr /\ list_setitem l i v = IndexErr /\ list_delitem l i = IndexErr
+  | Some j =>
+      0 <= j < zlen l /\
+      (exists x, nth_error l (Z.to_nat j) = Some x /\ list_getitem l i = Ok [x]) /\
+      list_setitem l i v = Ok (set_nth l (Z.to_nat j) v) /\
+      list_delitem l i = Ok (py_del l [j])
+  end.
+Proof.
+  unfold list_getitem, list_setitem, list_delitem. rewrite index_check_spec.
+  destruct (norm_index (zlen l) i) as [j|] eqn:E; [|auto].
+  assert (Hj : 0 <= j < zlen l).
+  { unfold norm_index in E. destruct ((0 <=? (if i <? 0 then i + zlen l else i)) && ((if i <? 0 then i + zlen l else i) <? zlen l)) eqn:T; inversion E; subst; lia. }
+  split; [exact Hj|]. split; [|split; [reflexivity|]].
+  - destruct (nth_error l (Z.to_nat j)) as [x|] eqn:N; [exists x; auto|].
+    apply nth_error_None in N. unfold zlen in Hj. lia.
+  - unfold del_item. assert (R : in_range l j = true) by (unfold in_range; lia). rewrite R. f_equal.
+    change (py_del l) with (py_del_off 0 l).
+    replace [j] with (idx_of j 1 1) by (unfold idx_of; cbn; f_equal; lia).
+    rewrite <- (del_common l j 1 1) by lia.
+    f_equal. change (Z.to_nat (1 - 1)) with O. rewrite strike_zero. unfold dropZ.
+    rewrite <- skipn_add. f_equal. lia.
+Qed.
+
+(* ---------------------------------------------------------------- no operation reaches a Go panic *)
+Theorem list_ops_never_panic {A} (l new : list A) start stop step i v : zlen l < IntMax ->
+  list_getslice l start stop step <> Panic /\ list_setslice l new start stop step <> Panic /\
+  list_delslice l start stop step <> Panic /\ list_getitem l i <> Panic /\ list_setitem l i v <> Panic /\
+  list_delitem l i <> Panic.
+Proof.
+  intros Hl.
+  pose proof (list_getslice_spec l start stop step Hl) as G.
+  pose proof (list_setslice_spec l new start stop step Hl) as S.
+  pose proof (list_delslice_spec l start stop step Hl) as D.
+  pose proof (list_items_spec l i v) as I.
+  repeat split.
+  - destruct (slice_indices (zlen l) start stop step); [destruct G as [r [-> _]]|rewrite G]; discriminate.
+  - destruct (slice_bounds (zlen l) start stop step) as [[[a b] s]|]; [|rewrite S; discriminate].
+    destruct (s =? 1); [rewrite S; discriminate|].
+    destruct (zlen new =? slice_count a b s); [destruct S as [r [-> _]]|rewrite S]; discriminate.
+  - destruct (slice_indices (zlen l) start stop step); rewrite D; discriminate.
+  - destruct (norm_index (zlen l) i); [destruct I as [_ [[x [_ ->]] _]]|destruct I as [-> _]]; discriminate.
+  - destruct (norm_index (zlen l) i); [destruct I as [_ [_ [-> _]]]|destruct I as [_ [-> _]]]; discriminate.
+  - destruct (norm_index (zlen l) i); [destruct I as [_ [_ [_ ->]]]|destruct I as [_ [_ ->]]]; discriminate.
+Qed.
